@@ -20,7 +20,8 @@ BUDGET = {"quick": (2000, 35), "thorough": (500_000, 540)}
 RULE = ("collector-produced snapshots of seeded value programs (friendly and awkward values, lone surrogates, shared/"
         "cyclic data, 0-8 locals, big structures) x watches (good and failing) x log messages x decorator and resource "
         "plugins supplying attributes of every valid type (str, bool, int, float, sequences) x auth configuration in "
-        "{none, BasicAuthProvider with ASCII / non-ASCII credentials, custom provider, rotating provider} x send "
+        "{none, BasicAuthProvider with ASCII / non-ASCII credentials, custom provider, rotating provider, provider "
+        "failing on its first call, provider slow on its first call} x send "
         "errors on a subset of sends x 1-2 threads; every delivered snapshot is compared field by field; "
         "non-trivial = at least one snapshot compared; distinct = distinct scenarios")
 COMPONENTS = {"real": ["whole Deep agent", "push conversion", "generated stubs + protobuf (de)serialisation", "auth providers"],
@@ -34,7 +35,7 @@ TEXT = ("Seeded exploration; independent field-by-field expectation (from the .p
 NOTE = "The fake channel runs the real request serialiser / response deserialiser of the generated stubs."
 TECHNIQUE = "deterministic simulation: fake transport under real stubs, independent wire expectation, send-fault injection"
 
-AUTHS = ("none", "basic", "basic-unicode", "fixed", "rotating")
+AUTHS = ("none", "basic", "basic-unicode", "fixed", "rotating", "flaky", "slow")
 
 
 def generate(seed, tier):
@@ -179,6 +180,14 @@ def execute(scenario, ch):
     elif auth == "rotating":
         cfg.update(SERVICE_AUTH_PROVIDER="simkit.simauth.RotatingProvider")
         want_md = None
+    elif auth == "flaky":
+        # the first call of the provider fails (that request cannot be sent); every request that IS sent afterwards
+        # must carry what the provider supplies
+        cfg.update(SERVICE_AUTH_PROVIDER="simkit.simauth.FlakyProvider")
+        want_md = [[("authorization", "Bearer recovered")]]
+    elif auth == "slow":
+        cfg.update(SERVICE_AUTH_PROVIDER="simkit.simauth.SlowProvider")
+        want_md = [[("authorization", "Bearer slow-token")]]
     else:
         want_md = [[]]
     del simauth.CALLS[:]
